@@ -9,6 +9,7 @@ import (
 	"bytes"
 	"context"
 	"encoding/json"
+	"errors"
 	"fmt"
 	"io"
 	"net/http"
@@ -17,6 +18,7 @@ import (
 	"strconv"
 	"strings"
 	"sync"
+	"time"
 
 	"github.com/go-openapi/runtime"
 	"github.com/go-openapi/runtime/client"
@@ -32,7 +34,7 @@ func init() {
 		Race:  true,
 		Rule: "(a) sequential: a fresh client.Runtime per case with a tagged consumer registry (subset of 9 lower-case types, with/without '*/*', default media type registered or not) and a scripted response " +
 			"(Content-Type registered / unregistered / absent / empty / malformed / grey, spelled plain, with parameters, OWS, mixed case; 17 status codes; custom reason phrase; header multiset; body) served by an in-memory RoundTripper or a loopback server; " +
-			"the ClientResponseReader records the consumer it was handed (by tag), Code/Message/GetHeader/GetHeaders/Body; tagged RoundTrippers and context values tell which client and which context carried the call (operation-level vs Runtime-level; live, cancelled, nil). " +
+			"the ClientResponseReader records the consumer it was handed (by tag), Code/Message/GetHeader/GetHeaders/Body, the Content-Type and Content-Length headers it is shown, and looks every scripted header up under its canonical, lower-case and upper-case name; tagged RoundTrippers and context values tell which client and which context carried the call (operation-level vs Runtime-level; live, cancelled, nil, deadline already expired, deadline hours away; request timeout default / 0 / hours); a share of cases runs with Runtime.Debug on (null logger). " +
 			"(b) concurrent: N=4..64 goroutines released together on a FRESH Runtime (1-2 calls each, unique token in request header+query and in response header+body), GOMAXPROCS in {1,4,16}, " +
 			"verifhook scheduler (per-goroutine PRNG: nothing / Gosched x k / sleep 10-300us at cl.submit.built, clientReady, beforeDo, afterDo; lock-free, so that it adds no happens-before edges), race detector on. " +
 			"non-trivial: sequential = (registry shape, header kind+spelling+registration, client/context configuration) tuples; concurrent = runs whose first calls overlapped between cl.submit.built and cl.submit.clientReady (from hook timestamps), distinct by the hash of the merged hook trace",
@@ -41,7 +43,9 @@ func init() {
 			"a malformed Content-Type (type/subtype part not a token pair) has no media type: the call may fail or use the catch-all consumer, never another consumer; its error must mention the value or the words 'content type'",
 			"grey-zone values (empty value, lone token without '/', irregular parameter section) may be read as 'media type = part before the first ;' or rejected; only 'never a different consumer' is judged there",
 			"status 1xx and 3xx-with-Location are not generated (net/http handles them before the Runtime sees the response); over loopback the reason phrase is the standard one and 204/304 carry no body",
-			"a call whose governing context (operation's, else the Runtime's) is already cancelled must fail without the reader running; the other context being cancelled must not matter",
+			"a call whose governing context (operation's, else the Runtime's) is already cancelled or past its deadline must fail without the reader running; the other context being cancelled or expired must not matter (deadlines used are either in the past or hours away: no wall-clock judgement)",
+			"header names are case-insensitive (RFC 7230): GetHeader/GetHeaders must find a header under any letter case of its name",
+			"over loopback a Content-Length header, when the reader is shown one, must state the length of the body sent; in memory none is scripted, so none may appear",
 			"race reports are collected by the driver from the race log; they carry no replayable case",
 		},
 		MinNontrivial: 100,
@@ -63,7 +67,8 @@ type Call struct {
 	Headers  [][2]string `json:"headers,omitempty"`
 	Body     mon.Q       `json:"body"`
 	OpClient bool        `json:"op_client,omitempty"` // operation carries its own http.Client
-	OpCtx    string      `json:"op_ctx,omitempty"`    // "" | live | cancelled
+	OpCtx    string      `json:"op_ctx,omitempty"`    // "" | live | cancelled | expired (deadline in the past) | far (deadline hours away)
+	Timeout  string      `json:"timeout,omitempty"`   // request timeout: "" (default 30s) | zero (SetTimeout(0)) | hours
 	Rounds   int         `json:"rounds,omitempty"`    // concurrent: calls made by this goroutine (default 1)
 }
 
@@ -77,8 +82,10 @@ type Conc struct {
 type Case struct {
 	Registry  []string `json:"registry"`   // keys of Runtime.Consumers; the tag of each consumer is its key
 	DefaultMT string   `json:"default_mt"` // Runtime.DefaultMediaType
-	RtCtx     string   `json:"rt_ctx"`     // Runtime.Context: nil | live | cancelled
+	RtCtx     string   `json:"rt_ctx"`     // Runtime.Context: nil | live | cancelled | expired | far
 	TCP       bool     `json:"tcp,omitempty"`
+	Debug     bool     `json:"debug,omitempty"`      // Runtime.Debug on, logging to a null logger
+	TokenBody bool     `json:"token_body,omitempty"` // every response body starts with the token of its own call
 	Calls     []Call   `json:"calls"`
 	Conc      *Conc    `json:"conc,omitempty"`
 }
@@ -342,6 +349,11 @@ type slot struct {
 	msg        string
 	first      map[string]string
 	all        map[string][]string
+	altFirst   map[string]string   // looked up under the lower-cased and upper-cased name ("l:"/"u:" + name)
+	altAll     map[string][]string // idem
+	ct         string
+	cts        []string
+	cls        []string
 	body       []byte
 	bodyErr    string
 	hdrTok     string
@@ -351,6 +363,8 @@ type slot struct {
 	mine   *result
 	err    error
 	panicV string
+
+	cancel context.CancelFunc // of the operation context, if it has one
 }
 
 type result struct{ token string }
@@ -361,11 +375,25 @@ type plan struct {
 }
 
 type exec struct {
-	c     *Case
-	nonce int64
-	plans map[string]*plan // token -> plan (read-only while calls run)
-	slots map[string]*slot // token -> slot (read-only map; each slot written by its own goroutine)
+	c        *Case
+	nonce    int64
+	plans    map[string]*plan // token -> plan (read-only while calls run)
+	slots    map[string]*slot // token -> slot (read-only map; each slot written by its own goroutine)
+	rtCancel context.CancelFunc
 }
+
+// bodyOf is the body scripted for the call carrying the token.
+func bodyOf(c *Case, call *Call, token string) string {
+	if c.TokenBody {
+		return token + "|" + string(call.Body)
+	}
+	return string(call.Body)
+}
+
+type nullLogger struct{}
+
+func (nullLogger) Printf(string, ...interface{}) {}
+func (nullLogger) Debugf(string, ...interface{}) {}
 
 func reasonOf(call *Call) string {
 	if call.Reason != "" {
@@ -418,7 +446,7 @@ func (t *memRT) RoundTrip(req *http.Request) (*http.Response, error) {
 		h["Content-Type"] = []string{string(call.CT)}
 	}
 	h["X-Token"] = []string{s.token}
-	body := []byte(string(call.Body))
+	body := []byte(bodyOf(t.x.c, call, s.token))
 	return &http.Response{
 		Status:        fmt.Sprintf("%d %s", call.Status, reasonOf(call)),
 		StatusCode:    call.Status,
@@ -448,9 +476,14 @@ var (
 	srvOnce   sync.Once
 	srv       *httptest.Server
 	srvBase   *http.Transport
-	srvPlans  sync.Map // token -> *Call
+	srvPlans  sync.Map // token -> *srvPlan
 	noSniffCT []string // nil value: suppresses net/http's content sniffing
 )
+
+type srvPlan struct {
+	call *Call
+	body string
+}
 
 func server() *httptest.Server {
 	srvOnce.Do(func() {
@@ -461,7 +494,7 @@ func server() *httptest.Server {
 				w.WriteHeader(http.StatusTeapot)
 				return
 			}
-			call := v.(*Call)
+			call, body := v.(*srvPlan).call, v.(*srvPlan).body
 			for _, kv := range call.Headers {
 				w.Header()[kv[0]] = append(w.Header()[kv[0]], kv[1])
 			}
@@ -473,7 +506,7 @@ func server() *httptest.Server {
 			w.Header()["X-Token"] = []string{tok}
 			w.WriteHeader(call.Status)
 			if call.Status != 204 && call.Status != 304 {
-				_, _ = w.Write([]byte(string(call.Body)))
+				_, _ = w.Write([]byte(body))
 			}
 		}))
 		srvBase = &http.Transport{MaxIdleConnsPerHost: 64}
@@ -481,17 +514,28 @@ func server() *httptest.Server {
 	return srv
 }
 
-func mkCtx(kind, tag string) context.Context {
+// mkCtx builds a context of the given kind carrying the tag; the cancel function (nil for kinds that need none)
+// is called when the case is over. Deadlines are either long past or hours away: nothing here depends on timing.
+func mkCtx(kind, tag string) (context.Context, context.CancelFunc) {
+	base := context.WithValue(context.Background(), ctxKey{}, tag)
 	switch kind {
 	case "live":
-		return context.WithValue(context.Background(), ctxKey{}, tag)
+		return base, nil
 	case "cancelled":
-		ctx, cancel := context.WithCancel(context.WithValue(context.Background(), ctxKey{}, tag))
+		ctx, cancel := context.WithCancel(base)
 		cancel()
-		return ctx
+		return ctx, nil
+	case "expired":
+		return context.WithDeadline(base, time.Unix(1000000000, 0)) // 2001: Done from the start, Err() = DeadlineExceeded
+	case "far":
+		return context.WithDeadline(base, time.Now().Add(12*time.Hour))
 	}
-	return nil
+	return nil, nil
 }
+
+// dead: a context of this kind is over before the call starts; alive: it cannot end while the call runs.
+func dead(kind string) bool  { return kind == "cancelled" || kind == "expired" }
+func alive(kind string) bool { return kind == "live" || kind == "far" }
 
 func (x *exec) transport(tag string) http.RoundTripper {
 	if x.c.TCP {
@@ -513,7 +557,13 @@ func (x *exec) newRuntime() *client.Runtime {
 	for _, k := range x.c.Registry {
 		rt.Consumers[k] = &taggedConsumer{tag: k}
 	}
-	rt.Context = mkCtx(x.c.RtCtx, "rt")
+	if ctx, cancel := mkCtx(x.c.RtCtx, "rt"); ctx != nil {
+		rt.Context, x.rtCancel = ctx, cancel
+	}
+	if x.c.Debug {
+		rt.SetLogger(nullLogger{})
+		rt.Debug = true
+	}
 	return rt
 }
 
@@ -533,6 +583,16 @@ func (x *exec) operation(call *Call, s *slot) *runtime.ClientOperation {
 			if err := req.SetHeaderParam("X-Token", s.token); err != nil {
 				return err
 			}
+			switch call.Timeout {
+			case "zero":
+				if err := req.SetTimeout(0); err != nil {
+					return err
+				}
+			case "hours":
+				if err := req.SetTimeout(6 * time.Hour); err != nil {
+					return err
+				}
+			}
 			return req.SetQueryParam("token", s.token)
 		}),
 		Reader: runtime.ClientResponseReaderFunc(func(resp runtime.ClientResponse, cons runtime.Consumer) (interface{}, error) {
@@ -549,10 +609,19 @@ func (x *exec) operation(call *Call, s *slot) *runtime.ClientOperation {
 			s.msg = resp.Message()
 			s.first = map[string]string{}
 			s.all = map[string][]string{}
+			s.altFirst = map[string]string{}
+			s.altAll = map[string][]string{}
 			for n := range names {
 				s.first[n] = resp.GetHeader(n)
 				s.all[n] = append([]string(nil), resp.GetHeaders(n)...)
+				for pfx, alt := range map[string]string{"l:": strings.ToLower(n), "u:": strings.ToUpper(n)} {
+					s.altFirst[pfx+n] = resp.GetHeader(alt)
+					s.altAll[pfx+n] = append([]string(nil), resp.GetHeaders(alt)...)
+				}
 			}
+			s.ct = resp.GetHeader("Content-Type")
+			s.cts = append([]string(nil), resp.GetHeaders("Content-Type")...)
+			s.cls = append([]string(nil), resp.GetHeaders("Content-Length")...)
 			s.hdrTok = resp.GetHeader("X-Token")
 			b, err := io.ReadAll(resp.Body())
 			s.body = b
@@ -566,7 +635,9 @@ func (x *exec) operation(call *Call, s *slot) *runtime.ClientOperation {
 	if call.OpClient {
 		op.Client = &http.Client{Transport: x.transport("op")}
 	}
-	op.Context = mkCtx(call.OpCtx, "op")
+	if ctx, cancel := mkCtx(call.OpCtx, "op"); ctx != nil {
+		op.Context, s.cancel = ctx, cancel
+	}
 	return op
 }
 
@@ -601,7 +672,7 @@ func prepare(c *Case) *exec {
 			x.plans[tok] = &plan{call: &c.Calls[i], tcp: c.TCP}
 			x.slots[tok] = &slot{token: tok}
 			if c.TCP {
-				srvPlans.Store(tok, &c.Calls[i])
+				srvPlans.Store(tok, &srvPlan{call: &c.Calls[i], body: bodyOf(c, &c.Calls[i], tok)})
 			}
 		}
 	}
@@ -612,6 +683,14 @@ func prepare(c *Case) *exec {
 }
 
 func (x *exec) release() {
+	if x.rtCancel != nil {
+		x.rtCancel()
+	}
+	for _, s := range x.slots {
+		if s.cancel != nil {
+			s.cancel()
+		}
+	}
 	if x.c.TCP {
 		for tok := range x.plans {
 			srvPlans.Delete(tok)
@@ -680,14 +759,20 @@ func judgeCall(c *Case, call *Call, s *slot) []finding {
 			add("request-sent-more-than-once", "the transport saw the call's request %d times", s.rtCalls)
 		}
 	}
-	if gov == "cancelled" {
+	if dead(gov) {
 		if s.err == nil || s.readerRuns > 0 {
 			which := "runtime"
 			if call.OpCtx != "" {
 				which = "op"
 			}
-			add("cancelled-"+which+"-context-ignored", "the governing context is cancelled, yet err=%v, reader runs=%d (request context held %q)", s.err, s.readerRuns, s.ctxTag)
+			add(gov+"-"+which+"-context-ignored", "the governing context is %s, yet err=%v, reader runs=%d (request context held %q)", gov, s.err, s.readerRuns, s.ctxTag)
 		}
+		return fs
+	}
+	if alive(call.OpCtx) && dead(c.RtCtx) && s.err != nil && (errors.Is(s.err, context.Canceled) || errors.Is(s.err, context.DeadlineExceeded)) {
+		// the operation's own context is alive and no timeout can have run out (30 s at least, against an immediate answer):
+		// only the transport-wide context can have ended the call, and it has no say when the operation carries its own
+		add("runtime-context-ended-call-despite-op-context/runtime-"+c.RtCtx+"+timeout-"+timeoutName(call), "operation context %s, Runtime.Context %s, request timeout %s: the call failed with %q (reader runs=%d)", call.OpCtx, c.RtCtx, timeoutName(call), s.err.Error(), s.readerRuns)
 		return fs
 	}
 	if s.rtCalls == 0 {
@@ -751,11 +836,36 @@ func judgeCall(c *Case, call *Call, s *slot) []finding {
 			add("headers-altered", "GetHeaders(%q) = %q, sent %q", n, s.all[n], vs)
 		} else if s.first[n] != vs[0] {
 			add("headers-altered", "GetHeader(%q) = %q, first sent value %q", n, s.first[n], vs[0])
+		} else if s.altAll != nil {
+			for _, pfx := range []string{"l:", "u:"} {
+				if !sameList(s.altAll[pfx+n], vs) || s.altFirst[pfx+n] != vs[0] {
+					add("header-lookup-depends-on-letter-case", "header %q sent with %q: looked up under its %s name GetHeaders = %q, GetHeader = %q", n, vs, map[string]string{"l:": "lower-case", "u:": "upper-case"}[pfx], s.altAll[pfx+n], s.altFirst[pfx+n])
+					break
+				}
+			}
 		}
 	}
-	wantBody := string(call.Body)
+	wantBody := bodyOf(c, call, s.token)
 	if c.TCP && (call.Status == 204 || call.Status == 304) {
 		wantBody = ""
+	}
+	// the Content-Type the reader is shown is the one sent (none when none was sent), whatever was done to pick the consumer
+	if call.HasCT {
+		if !sameList(s.cts, []string{string(call.CT)}) || s.ct != string(call.CT) {
+			add("content-type-header-altered/"+w.kind.String(), "reader saw Content-Type %q (all: %q), sent %s", s.ct, s.cts, ctText)
+		}
+	} else if len(s.cts) != 0 || s.ct != "" {
+		add("content-type-header-altered/absent", "no Content-Type was sent, the reader saw %q (all: %q)", s.ct, s.cts)
+	}
+	switch {
+	case !c.TCP:
+		if len(s.cls) != 0 {
+			add("content-length-header-altered", "no Content-Length header was scripted, the reader saw %q", s.cls)
+		}
+	case len(s.cls) != 0 && !(call.Status == 204 || call.Status == 304):
+		if !sameList(s.cls, []string{strconv.Itoa(len(wantBody))}) {
+			add("content-length-header-altered", "the reader saw Content-Length %q for a body of %d bytes", s.cls, len(wantBody))
+		}
 	}
 	if string(s.body) != wantBody || s.bodyErr != "" {
 		add("body-altered", "reader read %q (err %q), sent %q", clip(string(s.body)), s.bodyErr, clip(wantBody))
@@ -774,6 +884,13 @@ func judgeCall(c *Case, call *Call, s *slot) []finding {
 		}
 	}
 	return fs
+}
+
+func timeoutName(call *Call) string {
+	if call.Timeout == "" {
+		return "default"
+	}
+	return call.Timeout
 }
 
 func clip(s string) string {
@@ -817,7 +934,15 @@ func runCase(m *mon.M, c *Case) {
 		} else {
 			m.Class("seq-call-failed")
 		}
-		m.NT(strings.Join([]string{"seq", registryShape(c), w.feature, strconv.FormatBool(call.OpClient), call.OpCtx, c.RtCtx, strconv.FormatBool(c.TCP)}, "|"))
+		fp := []string{"seq", registryShape(c), w.feature, strconv.FormatBool(call.OpClient), call.OpCtx, c.RtCtx, strconv.FormatBool(c.TCP)}
+		if call.Timeout != "" || c.Debug {
+			fp = append(fp, call.Timeout, strconv.FormatBool(c.Debug))
+		}
+		m.NT(strings.Join(fp, "|"))
+		m.Class("seq-contexts:op=" + orNone(call.OpCtx) + ",rt=" + c.RtCtx)
+		if c.Debug {
+			m.Class("seq:debug-on")
+		}
 		for _, f := range judgeCall(c, call, s) {
 			m.Violate(f.sig, f.text, c)
 		}
@@ -841,6 +966,13 @@ func replay(m *mon.M, raw json.RawMessage) {
 		return
 	}
 	runCase(m, &c)
+}
+
+func orNone(s string) string {
+	if s == "" {
+		return "none"
+	}
+	return s
 }
 
 func sortedKeys(m map[string]int) []string {
